@@ -484,11 +484,15 @@ pub fn emit_run(out: &mut Out, run: u64, header: &Value, o: &RunOutcome, values:
     let mut minseen_upto = 0usize;
     let mut minseen = NOOBJ;
     for (i, s) in o.steps.iter().enumerate() {
-        // minimum rank returned by the objective function so far
+        // minimum rank returned by the objective function so far -- and since the previous record (smin)
+        let mut smin = NOOBJ;
         while minseen_upto < s.nvalues {
             let r = p.rank(Some(values[minseen_upto]));
             if minseen == NOOBJ || r < minseen {
                 minseen = r;
+            }
+            if smin == NOOBJ || r < smin {
+                smin = r;
             }
             minseen_upto += 1;
         }
@@ -507,6 +511,7 @@ pub fn emit_run(out: &mut Out, run: u64, header: &Value, o: &RunOutcome, values:
             "evals": s.evals, "iters": s.iters, "calls": s.calls,
             "best": s.best.as_ref().map(|b| p.rank(b.obj)).unwrap_or(NOOBJ),
             "minseen": minseen,
+            "smin": smin,
             "sd": s.scope_depth,
             "xk": header["xk"],
             "x": subst_ranks(&mut p, &s.extra),
@@ -1041,7 +1046,8 @@ pub fn run_spec(out: &mut Out, run: u64, spec: &Value) {
             go!(problem, real_template::<RealProblem>(base, params, n), super::templates_extra::real_extra(base, params, n))
         }
         "bits" => {
-            let problem = BitProblem::new(prob["dim"].as_u64().unwrap() as usize);
+            let dim = prob["dim"].as_u64().unwrap() as usize;
+            let problem = if prob["f"].as_u64() == Some(1) { BitProblem::positional(dim) } else { BitProblem::new(dim) };
             go!(problem, bit_template::<BitProblem>(name, params, n), ("-".to_string(), no_extra::<BitProblem>()))
         }
         "tsp" => {
